@@ -111,10 +111,10 @@ PROPS = {
         'kill_units': ['x86_routine', 'a64_routine'],
         'aux': ['cbmc_io', 'cbmc_driver', 'native_prints'],
         'level': 'other',
-        'claim': 'Generated C driver: proved by CBMC (complete: loop-free up to the fixed argument count, all 64-bit values) for 0..7 parameters - wrong argument count is reported and nothing runs, otherwise every decimal argument reaches its parameter unchanged and in order and the result of main is the result of asm_main. Argument shuffle move_arguments (x86-64 and AArch64): proved by Verus as one simultaneous assignment. io.c: CBMC on the real file; quick tier: all values -9999..9999 symbolically plus all boundary constants (bounded); thorough tier: the whole int64 domain partitioned into digit classes (complete iff every class finishes within its time cap). Whole-routine execution with 0..5 / 0..7 parameters on the machine models (bounded).',
+        'claim': 'Generated C driver: proved by CBMC (complete: loop-free up to the fixed argument count, all 64-bit values) for 0..7 parameters, with the default and with an explicit heap size - wrong argument count is reported and nothing runs, otherwise every decimal argument reaches its parameter unchanged and in order and the result of main is the result of asm_main. Argument shuffle move_arguments (x86-64 and AArch64): proved by Verus as one simultaneous assignment. io.c: CBMC on the real file; quick tier: all values -9999..9999 symbolically plus all boundary constants (bounded); thorough tier: all values of 1..8 decimal digits (both signs) symbolically, class by class, plus symbolic windows of 10^4 consecutive values at both ends of every 9..19-digit class and at seeded random places (bounded there: whole classes of 9+ digits do not finish in CBMC, and CBMC 6.11 refuses loop contracts on the do/while digit loop). Whole-routine execution with 0..5 / 0..7 parameters on the machine models (bounded).',
         'note': 'Bounded in the quick tier for io.c. Trusted: CBMC, the typed contracts of the libc conversion functions, POSIX exit status truncation, write(2).',
         'technique': 'CBMC on the real io.c and on the generated driver text against functional contracts; Verus contract on move_arguments',
-        'not_decided': 'io.c for the full int64 domain in the quick tier (bounded there)',
+        'not_decided': 'io.c for values of 9..19 decimal digits other than the sampled windows and boundary constants (and beyond -9999..9999 in the quick tier)',
         'explanation': 'CBMC contracts for print_i64/println_i64 and for the generated drivers (n = 0..7), Verus contract for the argument shuffle, bounded native execution of the routine skeleton',
     },
     'C14': {
